@@ -2,6 +2,7 @@ package main
 
 import (
 	"bytes"
+	"io"
 	"fmt"
 	"log"
 	"math/rand"
@@ -154,11 +155,125 @@ func c27Pattern(n, seed int) []byte {
 	return out
 }
 
+// c27Reload is the reloadable handler of the hconf / hupdate / hfire ops of one case.
+type c27Reload struct {
+	h        *agent.ScriptEventHandler
+	dir      string
+	selfName string
+	selfTags map[string]string
+}
+
+// c27Handlers turns `_` or `id:filterhex,…` into the agent's own configuration form; the script
+// of id i appends a line to <dir>/runs.<i> and consumes its input.
+func c27Handlers(dir, sp string) ([]agent.EventScript, bool) {
+	var specs []string
+	if sp != "_" {
+		for _, item := range strings.Split(sp, ",") {
+			p := strings.Split(item, ":")
+			if len(p) != 2 {
+				return nil, false
+			}
+			if _, err := strconv.Atoi(p[0]); err != nil {
+				return nil, false
+			}
+			script := fmt.Sprintf("echo x >> %s/runs.%s; cat > /dev/null", dir, p[0])
+			if p[1] == "!" {
+				specs = append(specs, script)
+				continue
+			}
+			fl := unhex(p[1])
+			if fl == nil {
+				return nil, false
+			}
+			specs = append(specs, string(fl)+"="+script)
+		}
+	}
+	// exactly what the agent does at start and on reload (command.go): Config.EventScripts()
+	conf := agent.DefaultConfig()
+	conf.EventHandlers = specs
+	return conf.EventScripts(), true
+}
+
 func c27Exec(ops []string) []string {
 	var outs []string
+	var rl *c27Reload
+	defer func() {
+		if rl != nil {
+			os.RemoveAll(rl.dir)
+		}
+	}()
 	for _, o := range ops {
 		f := strings.Fields(o)
 		switch {
+		case len(f) == 2 && (f[0] == "hconf" || f[0] == "hupdate"):
+			if f[0] == "hconf" {
+				if rl != nil {
+					outs = append(outs, "bad-op")
+					continue
+				}
+				dir, err := os.MkdirTemp("", "verif-c27r-")
+				if err != nil {
+					panic(err)
+				}
+				rl = &c27Reload{dir: dir}
+			}
+			if rl == nil {
+				outs = append(outs, "bad-op")
+				continue
+			}
+			scripts, ok := c27Handlers(rl.dir, f[1])
+			if !ok {
+				outs = append(outs, "bad-op")
+				continue
+			}
+			if f[0] == "hconf" {
+				r := rl
+				rl.h = &agent.ScriptEventHandler{
+					SelfFunc: func() serf.Member { return serf.Member{Name: r.selfName, Tags: r.selfTags} },
+					Scripts:  scripts,
+					Logger:   log.New(io.Discard, "", 0),
+				}
+			} else {
+				rl.h.UpdateScripts(scripts)
+			}
+			outs = append(outs, "ok")
+		case len(f) == 4 && f[0] == "hfire":
+			selfName := unhex(f[1])
+			selfTags, ok := c27Tags(f[2])
+			ev, _, ok2 := c27Event(f[3], false, 0)
+			if rl == nil || selfName == nil || !ok || !ok2 {
+				outs = append(outs, "bad-op")
+				continue
+			}
+			rl.selfName, rl.selfTags = string(selfName), selfTags
+			old, _ := filepath.Glob(filepath.Join(rl.dir, "runs.*"))
+			for _, p := range old {
+				os.Remove(p)
+			}
+			rl.h.HandleEvent(ev)
+			files, _ := filepath.Glob(filepath.Join(rl.dir, "runs.*"))
+			type rc struct{ id, n int }
+			var ran []rc
+			for _, p := range files {
+				id, err := strconv.Atoi(strings.TrimPrefix(filepath.Base(p), "runs."))
+				if err != nil {
+					continue
+				}
+				b, _ := os.ReadFile(p)
+				ran = append(ran, rc{id, bytes.Count(b, []byte("\n"))})
+			}
+			sort.Slice(ran, func(i, j int) bool { return ran[i].id < ran[j].id })
+			var ps []string
+			for _, r := range ran {
+				if r.n > 0 {
+					ps = append(ps, fmt.Sprintf("%d:%d", r.id, r.n))
+				}
+			}
+			if len(ps) == 0 {
+				outs = append(outs, "ran=-")
+			} else {
+				outs = append(outs, "ran="+strings.Join(ps, ","))
+			}
 		case len(f) == 2 && f[0] == "parse":
 			v := unhex(f[1])
 			if v == nil {
@@ -454,6 +569,67 @@ func c27Gen(rng *rand.Rand, tier string) []Case {
 	for i, ops := range fixed {
 		out = append(out, Case{ID: fmt.Sprintf("f%d", i), Ops: ops, Nontrivial: true, Tags: []string{"fixed", "run"}})
 	}
+	// reload histories: configure, fire, reload (also to NO handlers and back), fire again
+	hx := func(s string) string { return hexs(s) }
+	ue := func(name string) string { return "u/" + hexs(name) + "/1/" + hexs("p") }
+	out = append(out, Case{ID: "reload-to-none", Nontrivial: true, Tags: []string{"fixed", "reload", "reload-to-empty"}, Ops: []string{
+		"hconf 0:" + hx("*") + ",1:" + hx("user:deploy"), "hfire " + hx("n") + " _ " + ue("deploy"),
+		"hupdate _", "hfire " + hx("n") + " _ " + ue("deploy"), "hfire " + hx("n") + " _ mj/_",
+		"hupdate 2:" + hx("user"), "hfire " + hx("n") + " _ " + ue("deploy"),
+		"hupdate 3:" + hx("query") + ",0:!", "hupdate _", "hupdate 4:" + hx("user:deploy,user"), "hfire " + hx("n") + " _ " + ue("deploy"),
+		"hupdate _", "hfire " + hx("n") + " _ " + ue("x")}})
+	out = append(out, Case{ID: "reload-from-none", Nontrivial: true, Tags: []string{"fixed", "reload"}, Ops: []string{
+		"hconf _", "hfire " + hx("n") + " _ " + ue("deploy"), "hupdate 0:!", "hfire " + hx("n") + " _ mf/_", "hfire " + hx("n") + " _ " + ue("a")}})
+	nReload := 5
+	if tier == "thorough" {
+		nReload = 150
+	}
+	for i := 0; i < nReload; i++ {
+		genSpecs := func() string {
+			n := rng.Intn(4)
+			if n == 0 {
+				return "_"
+			}
+			var ps []string
+			for j := 0; j < n; j++ {
+				id := rng.Intn(5)
+				dup := false
+				for _, p := range ps {
+					dup = dup || strings.HasPrefix(p, fmt.Sprint(id)+":")
+				}
+				if dup {
+					continue
+				}
+				fl := "!"
+				if rng.Intn(5) > 0 {
+					fl = hexs(strings.ReplaceAll([]string{"*", "user", "user:deploy", "member-join", "member-join,user", "query", "user:x,user:deploy"}[rng.Intn(7)], "=", "-"))
+				}
+				ps = append(ps, fmt.Sprintf("%d:%s", id, fl))
+			}
+			return strings.Join(ps, ",")
+		}
+		fire := func() string {
+			ev := []string{ue("deploy"), ue("x"), "mj/_", "ml/" + hexs("m") + "~1.2.3.4~_"}[rng.Intn(4)]
+			return "hfire " + hexs("n") + " _ " + ev
+		}
+		ops := []string{"hconf " + genSpecs(), fire()}
+		tags := []string{"reload"}
+		for j := 0; j < 2+rng.Intn(3); j++ {
+			sp := genSpecs()
+			if rng.Intn(3) == 0 {
+				sp = "_"
+			}
+			if sp == "_" {
+				tags = append(tags, "reload-to-empty")
+			}
+			ops = append(ops, "hupdate "+sp)
+			if rng.Intn(4) > 0 {
+				ops = append(ops, fire())
+			}
+		}
+		ops = append(ops, fire())
+		out = append(out, Case{ID: fmt.Sprintf("h%d", i), Ops: ops, Nontrivial: true, Tags: tags})
+	}
 	for i := 0; i < nRun; i++ {
 		e, kind := c27GenEvent(rng)
 		ns := 1 + rng.Intn(3)
@@ -529,7 +705,7 @@ func c27Gen(rng *rand.Rand, tier string) []Case {
 func init() {
 	register(&Prop{
 		ID:   "C27",
-		Rule: "pure: ParseEventScript on generated specs and EventFilter.Invoke on generated filters x events (event/query names and filter names with colons, '=', spaces, tabs, newlines, non-ASCII, empty); runs: the real ScriptEventHandler.HandleEvent with 1-3 /bin/sh scripts recording environment and stdin, member events with 0-3 members (member names, roles, tag NAMES and tag values with tabs, newlines, '=', ',' and non-ASCII, nil address), user events, real queries on a real node (payload with/without trailing newline, empty, binary), script output 0 / small / around 1024 / around 8192 bytes, non-zero exit; non-trivial = pure case, or a run whose script prints output",
+		Rule: "pure: ParseEventScript on generated specs and EventFilter.Invoke on generated filters x events (event/query names and filter names with colons, '=', spaces, tabs, newlines, non-ASCII, empty); runs: the real ScriptEventHandler.HandleEvent with 1-3 /bin/sh scripts recording environment and stdin, member events with 0-3 members (member names, roles, tag NAMES and tag values with tabs, newlines, '=', ',' and non-ASCII, nil address), user events, real queries on a real node (payload with/without trailing newline, empty, binary), script output 0 / small / around 1024 / around 8192 bytes, non-zero exit; reload histories on one handler (Config.EventScripts + UpdateScripts, also to the empty list and back) with the scripts that ran recorded per id; non-trivial = pure case, reload history, or a run whose script prints output",
 		Gen:  c27Gen,
 		Exec: c27Exec,
 	})
